@@ -60,6 +60,9 @@ class GenericSystemRegistry(
         #: Maps dimensionality (UnitsContainer) to Dimensionality (UnitsContainer)
         self._base_units_cache: dict[UnitsContainerT, UnitsContainerT] = {}
 
+        #: The registry cache the entries above were computed with.
+        self._base_units_cache_source: Any = None
+
         self._default_system_name: str | None = system
 
     def _init_dynamic_classes(self) -> None:
@@ -184,6 +187,12 @@ class GenericSystemRegistry(
     ):
         if system is None:
             system = self._default_system_name
+
+        # Cached entries derive from self._cache (and the unit table it belongs
+        # to), which is swapped when contexts redefining units are switched.
+        if self._base_units_cache_source is not self._cache:
+            self._base_units_cache = {}
+            self._base_units_cache_source = self._cache
 
         # The cache is only done for check_nonmult=True and the current system.
         if (
